@@ -241,6 +241,8 @@ impl Literal {
             (Literal::Range(min, max, num_ty), Type::Array(elem_ty, size)) => {
                 elem_ty.as_ref() == &Type::Unsigned(*num_ty)
                     && max.checked_sub(*min) == Some(*size as u64)
+                    // (the last element must be a value of the number type)
+                    && (*max == 0 || num_ty.max().is_none_or(|m| *max - 1 <= m))
             }
             _ => false,
         }
